@@ -86,3 +86,123 @@ theorem tp_reject_client_sent {pid plen : Bytes} {id len : Nat} (hid : Decodes p
   rcases hforb with rfl | rfl | rfl | rfl <;> simp (config := {decide := true}) [isNumericID]
 
 end Uquic.Proofs.Wire
+
+namespace Uquic.Proofs.Wire
+open Uquic.Model.Wire Uquic.Model.Wire.Varint Uquic.Model.Wire.TP
+
+/-- the length guard of `readPreferredAddress` (regenerated from the source) covers every byte the
+    function reads at a fixed offset — including the connection-ID length byte -/
+theorem pa_guard_covers_reads : preferredAddressFixedReads ≤ preferredAddressMinLen := by decide
+
+theorem readPreferredAddress_no_panic (b : Bytes) (expectedLen : Nat) : readPreferredAddress b expectedLen ≠ .error .panic := by
+  have hg := pa_guard_covers_reads
+  unfold readPreferredAddress
+  split
+  · simp
+  · split
+    · omega
+    · simp only
+      split
+      · simp
+      · split
+        · simp
+        · split <;> simp
+
+theorem np_ite {α : Type} {c : Prop} [Decidable c] {x y : Except TErr α} (hx : x ≠ .error .panic) (hy : y ≠ .error .panic) :
+    (if c then x else y) ≠ .error .panic := by
+  split <;> assumption
+
+theorem np_ok {α : Type} (x : α) : (Except.ok x : Except TErr α) ≠ .error .panic := by simp
+
+theorem readNumeric_no_panic (p : Params) (b : Bytes) (id expectedLen : Nat) : readNumeric p b id expectedLen ≠ .error .panic := by
+  unfold readNumeric
+  split
+  · simp
+  · simp only
+    repeat' (first | apply np_ite | apply np_ok)
+    all_goals simp
+
+theorem np_match_take {α : Type} (b : Bytes) (k : Nat × Bytes → Except TErr α) (hk : ∀ x, k x ≠ .error .panic) :
+    (match Varint.take b with
+     | .error e => (.error (TErr.ofV e) : Except TErr α)
+     | .ok x => k x) ≠ .error .panic := by
+  split
+  · rename_i e _; cases e <;> simp [TErr.ofV]
+  · exact hk _
+
+theorem np_bind {α β : Type} (r : Except TErr α) (k : α → Except TErr β) (hr : r ≠ .error .panic) (hk : ∀ x, k x ≠ .error .panic) :
+    (match r with
+     | .error e => (.error e : Except TErr β)
+     | .ok x => k x) ≠ .error .panic := by
+  split
+  · rename_i e he; intro hc; simp only [Except.error.injEq] at hc; subst hc; exact hr rfl
+  · exact hk _
+
+theorem np_err {α : Type} (e : TErr) (h : e ≠ .panic) : (Except.error e : Except TErr α) ≠ .error .panic := by
+  simpa using h
+
+theorem unmarshalLoop_no_panic (sentBy : Nat) : ∀ (fuel : Nat) (b : Bytes) (st : LoopSt),
+    unmarshalLoop sentBy fuel b st ≠ .error .panic := by
+  intro fuel
+  induction fuel with
+  | zero => intro b st; simp [unmarshalLoop]
+  | succ fuel ih =>
+    intro b st
+    unfold unmarshalLoop
+    by_cases hb : b.isEmpty = true
+    · simp [hb]
+    · simp only [hb, Bool.false_eq_true, if_false]
+      cases h1 : Varint.take b with
+      | error e => cases e <;> simp [TErr.ofV]
+      | ok x =>
+        obtain ⟨id, b1⟩ := x
+        simp only
+        cases h2 : Varint.take b1 with
+        | error e => cases e <;> simp [TErr.ofV]
+        | ok y =>
+          obtain ⟨plen, b2⟩ := y
+          simp only
+          by_cases hl : b2.length < plen
+          · simp [hl]
+          · rw [if_neg hl]
+            by_cases hn : isNumericID id = true
+            · rw [if_pos hn]
+              cases hr : readNumeric st.p b2 id plen with
+              | error e =>
+                simp only; intro hc; simp only [Except.error.injEq] at hc; subst hc
+                exact readNumeric_no_panic _ _ _ _ hr
+              | ok p => simp only; exact ih _ _
+            · rw [if_neg hn]
+              by_cases hpa : id = idPreferredAddress
+              · rw [if_pos hpa]
+                apply np_ite (np_err _ (by decide))
+                cases hr : readPreferredAddress b2 plen with
+                | error e =>
+                  simp only; intro hc; simp only [Except.error.injEq] at hc; subst hc
+                  exact readPreferredAddress_no_panic _ _ hr
+                | ok pa => simp only; exact ih _ _
+              · rw [if_neg hpa]
+                repeat' (first | exact ih _ _ | apply np_err _ (by decide) | apply np_ite)
+
+/-- `Unmarshal` / `UnmarshalFromSessionTicket` never index beyond the declared length: on every byte
+    string, from either perspective, the model returns parameters or an error — never the panic outcome -/
+theorem tp_unmarshal_no_panic (b : Bytes) (sentBy : Nat) (fromTicket : Bool) :
+    unmarshal b sentBy fromTicket ≠ .error .panic ∧ unmarshalFromSessionTicket b ≠ .error .panic := by
+  have hloop := unmarshalLoop_no_panic
+  have h1 : ∀ (b : Bytes) (sentBy : Nat) (ft : Bool), unmarshal b sentBy ft ≠ .error .panic := by
+    intro b sentBy ft
+    unfold unmarshal
+    simp only
+    split
+    · rename_i e he; intro hc; simp only [Except.error.injEq] at hc; subst hc; exact hloop _ _ _ _ he
+    · repeat' split
+      all_goals simp
+  refine ⟨h1 b sentBy fromTicket, ?_⟩
+  unfold unmarshalFromSessionTicket
+  split
+  · rename_i e _; cases e <;> simp [TErr.ofV]
+  · split
+    · simp
+    · exact h1 _ _ _
+
+end Uquic.Proofs.Wire
